@@ -62,6 +62,9 @@ enum CallKind {
 /// One owed reply as scripted: (is_error, id/code, tag/why, continues flag as written).
 #[derive(Debug, Clone, PartialEq)]
 struct Owed {
+    /// An `org.varlink.service.InvalidParameter` error: a conforming answer that the client API
+    /// reports as a connection-level error (the reply stream ends there).
+    service_error: bool,
     error: bool,
     unit_error: bool,
     num: i64,
@@ -71,7 +74,9 @@ struct Owed {
 
 impl Owed {
     fn frame(&self) -> Vec<u8> {
-        let v = if self.error {
+        let v = if self.service_error {
+            json!({"error": "org.varlink.service.InvalidParameter", "parameters": {"parameter": self.text}})
+        } else if self.error {
             if self.unit_error {
                 json!({"error": "org.example.Nope"})
             } else {
@@ -89,7 +94,9 @@ impl Owed {
 
     /// How a yielded item is rendered for comparison.
     fn render(&self) -> String {
-        if self.error {
+        if self.service_error {
+            format!("SvcErr(InvalidParameter {:?})", self.text)
+        } else if self.error {
             if self.unit_error {
                 "Err(Nope)".into()
             } else {
@@ -109,8 +116,22 @@ fn render_item(item: &zlink_core::Result<zlink_core::reply::Result<RepIn<'_>, Er
         },
         Ok(Err(ErrIn::Nope)) => "Err(Nope)".into(),
         Ok(Err(ErrIn::Bad { code, why })) => format!("Err(Bad {code} {why:?})"),
+        Err(zlink_core::Error::VarlinkService(zlink_core::varlink_service::Error::InvalidParameter { parameter })) => format!("SvcErr(InvalidParameter {parameter:?})"),
         Err(e) => format!("TransportErr({e:?})"),
     }
+}
+
+/// A call the serializer refuses (tuple map key): contributes nothing to the connection.
+#[derive(Debug, Serialize)]
+struct Refused {
+    lead: u32,
+    m: std::collections::BTreeMap<(i32, i32), i32>,
+}
+
+fn refused_call() -> Call<Refused> {
+    let mut m = std::collections::BTreeMap::new();
+    m.insert((1, 2), 3);
+    Call::new(Refused { lead: 7, m })
 }
 
 #[derive(Debug, Clone)]
@@ -120,6 +141,9 @@ struct Scenario {
     foreign: Vec<Owed>,
     /// Use the proxy-generated streaming method instead of a chain (single `more` call).
     via_proxy: bool,
+    /// Refused submissions on the same connection before the chain is built (1 = a refused
+    /// `enqueue_call`, 2 = a chain whose first call is refused); they leave nothing behind.
+    pre_refused: Vec<u8>,
 }
 
 fn tag(t: &mut Tape, style: usize, salt: usize) -> String {
@@ -165,10 +189,10 @@ fn gen_scenario(t: &mut Tape, borrowed: bool) -> Scenario {
         let mut final_reply = |t: &mut Tape, owed: &mut Vec<Owed>, salt: &mut usize| {
             *salt += 1;
             match t.draw(5) {
-                0 => owed.push(Owed { error: true, unit_error: false, num: i as i64, text: tag(t, size_style, *salt), continues: None }),
-                1 => owed.push(Owed { error: true, unit_error: true, num: 0, text: String::new(), continues: None }),
-                2 => owed.push(Owed { error: false, unit_error: false, num: i as i64, text: tag(t, size_style, *salt), continues: Some(false) }),
-                _ => owed.push(Owed { error: false, unit_error: false, num: i as i64, text: tag(t, size_style, *salt), continues: None }),
+                0 => owed.push(Owed { service_error: false, error: true, unit_error: false, num: i as i64, text: tag(t, size_style, *salt), continues: None }),
+                1 => owed.push(Owed { service_error: false, error: true, unit_error: true, num: 0, text: String::new(), continues: None }),
+                2 => owed.push(Owed { service_error: false, error: false, unit_error: false, num: i as i64, text: tag(t, size_style, *salt), continues: Some(false) }),
+                _ => owed.push(Owed { service_error: false, error: false, unit_error: false, num: i as i64, text: tag(t, size_style, *salt), continues: None }),
             }
         };
         match kind {
@@ -178,19 +202,36 @@ fn gen_scenario(t: &mut Tape, borrowed: bool) -> Scenario {
                 let k = t.draw(max_cont);
                 for _ in 0..k {
                     salt += 1;
-                    owed.push(Owed { error: false, unit_error: false, num: i as i64, text: tag(t, size_style, salt), continues: Some(true) });
+                    owed.push(Owed { service_error: false, error: false, unit_error: false, num: i as i64, text: tag(t, size_style, salt), continues: Some(true) });
                 }
                 final_reply(t, &mut owed, &mut salt);
             }
         }
     }
     let mut foreign = Vec::new();
-    if !borrowed {
-        for j in 0..t.draw(3) {
-            foreign.push(Owed { error: false, unit_error: false, num: 900 + j as i64, text: tag(t, 0, 77 + j), continues: None });
+    for j in 0..t.draw(3) {
+        foreign.push(Owed { service_error: false, error: false, unit_error: false, num: 900 + j as i64, text: tag(t, 0, 77 + j), continues: None });
+    }
+    // One scenario in six: a reply is an org.varlink.service error. For C06 it answers the last
+    // reply-bearing call (the stream ends at such an error; whether it should go on afterwards is
+    // not settled by the statement); for C11, which only judges held data, it may sit anywhere.
+    if t.draw(6) == 5 && !owed.is_empty() {
+        let at = if borrowed { t.draw(owed.len()) } else { owed.len() - 1 };
+        if borrowed || owed[at].continues != Some(true) {
+            owed[at].service_error = true;
+            owed[at].error = false;
+            if owed[at].text.is_empty() {
+                owed[at].text = "p".into();
+            }
         }
     }
-    Scenario { calls, owed, foreign, via_proxy }
+    let mut pre_refused = Vec::new();
+    if t.draw(4) == 3 {
+        for _ in 0..1 + t.draw(2) {
+            pre_refused.push(1 + t.draw(2) as u8);
+        }
+    }
+    Scenario { calls, owed, foreign, via_proxy, pre_refused }
 }
 
 fn clip(s: &str) -> String {
@@ -249,12 +290,12 @@ impl Prop for ChainProp {
                     let k = [CallKind::Plain, CallKind::Oneway, CallKind::More][w.tape.draw(3)];
                     calls.push(k);
                     let reply_style = w.tape.draw(4);
-                    let mk = |cont: Option<bool>, j: usize| Owed { error: false, unit_error: false, num: i as i64, text: format!("r{i}_{j}"), continues: cont };
+                    let mk = |cont: Option<bool>, j: usize| Owed { service_error: false, error: false, unit_error: false, num: i as i64, text: format!("r{i}_{j}"), continues: cont };
                     match k {
                         CallKind::Oneway => {}
                         CallKind::Plain => {
                             if reply_style == 3 {
-                                owed.push(Owed { error: true, unit_error: false, num: i as i64, text: format!("e{i}"), continues: None })
+                                owed.push(Owed { service_error: false, error: true, unit_error: false, num: i as i64, text: format!("e{i}"), continues: None })
                             } else {
                                 owed.push(mk(if reply_style == 1 { Some(false) } else { None }, 0))
                             }
@@ -265,7 +306,7 @@ impl Prop for ChainProp {
                                 owed.push(mk(Some(true), j));
                             }
                             if reply_style == 3 {
-                                owed.push(Owed { error: true, unit_error: true, num: 0, text: String::new(), continues: None })
+                                owed.push(Owed { service_error: false, error: true, unit_error: true, num: 0, text: String::new(), continues: None })
                             } else {
                                 owed.push(mk(Some(false), 9))
                             }
@@ -276,8 +317,8 @@ impl Prop for ChainProp {
                 w.cfg = Cfg::plain();
                 w.cfg.bias = 3;
                 w.cfg.chunk = [Chunk::Whole, Chunk::Frame, Chunk::Byte][delivery].clone();
-                let foreign = if borrowed { vec![] } else { vec![Owed { error: false, unit_error: false, num: 900, text: "later".into(), continues: None }] };
-                (Scenario { calls, owed, foreign, via_proxy: false }, format!("systematic delivery={delivery}"))
+                let foreign = if borrowed { vec![] } else { vec![Owed { service_error: false, error: false, unit_error: false, num: 900, text: "later".into(), continues: None }] };
+                (Scenario { calls, owed, foreign, via_proxy: false, pre_refused: vec![] }, format!("systematic delivery={delivery}"))
             } else {
                 w.cfg = Cfg::swarm(&mut w.tape);
                 let sc = gen_scenario(&mut w.tape, borrowed);
@@ -310,6 +351,7 @@ impl Prop for ChainProp {
                 "calls": sc.calls.iter().map(|c| format!("{c:?}")).collect::<Vec<_>>(),
                 "owed_replies": sc.owed.iter().map(|o| { let r = o.render(); if r.len() > 60 { format!("{}…({} bytes)", &r[..50], o.frame().len()) } else { r } }).collect::<Vec<_>>(),
                 "foreign_frames_after": sc.foreign.len(),
+                "refused_submissions_before": sc.pre_refused.len(),
             }));
         }
 
@@ -426,6 +468,18 @@ impl Prop for ChainProp {
                         }};
                     }
 
+                    for kind in &sc2.pre_refused {
+                        let refused = if *kind == 1 {
+                            conn.enqueue_call(&refused_call()).is_err()
+                        } else {
+                            conn.chain_call::<Refused, RepIn<'_>, ErrIn<'_>>(&refused_call()).is_err()
+                        };
+                        world2.borrow_mut().stat("fault.serializer_refused_call_before_the_chain");
+                        if !refused {
+                            prog2.borrow_mut().fail = Some(("chain/refused-call-accepted".into(), "a call with a tuple map key was accepted".into()));
+                            return;
+                        }
+                    }
                     if sc2.via_proxy {
                         match conn.watch(7).await {
                             Ok(s) => {
@@ -523,7 +577,7 @@ impl Prop for ChainProp {
             .owed
             .iter()
             .map(|o| {
-                if sc.via_proxy && !o.error {
+                if sc.via_proxy && !o.error && !o.service_error {
                     // the proxy stream drops the Reply wrapper; continues is not visible
                     format!("Ok({} {:?} continues=None)", o.num, o.text)
                 } else {
